@@ -60,6 +60,9 @@ pub struct Script {
     /// Last-Modified header on objects: true = a fixed time in the past, false = absent
     pub last_modified_header: bool,
     pub vcp: VcpSpec,
+    /// responses delivered with chunked transfer encoding / lower-case header names (bits 0 / 1)
+    #[serde(default)]
+    pub delivery: u8,
 }
 
 const N_DIRS: usize = 999;
@@ -358,6 +361,8 @@ impl World for PollWorld {
         };
         self.log.push(logged);
         resp.gate = gate;
+        resp.chunked = self.script.delivery & 1 != 0;
+        resp.lowercase_headers = self.script.delivery & 2 != 0;
         resp
     }
 }
@@ -617,17 +622,17 @@ pub fn script_strategy() -> impl Strategy<Value = Script> {
         3 => (0usize..=12).prop_map(Consumer::StopAfter),
         2 => (0usize..=12).prop_map(Consumer::DropAfter),
     ];
-    (volume, run, seq, entries, never_at, consumer, any::<bool>(), prop_oneof![3 => Just(true), 1 => Just(false)], gen::vcp(prop_oneof![Just(0usize), 1usize..=20].boxed()).prop_flat_map(|v| {
+    (volume, run, seq, entries, never_at, consumer, (any::<bool>(), prop_oneof![2 => Just(0u8), 1 => 1u8..4]), prop_oneof![3 => Just(true), 1 => Just(false)], gen::vcp(prop_oneof![Just(0usize), 1usize..=20].boxed()).prop_flat_map(|v| {
         let n = v.cuts.len();
         (Just(v), vec(gen::realistic_cut(), n))
     }))
-        .prop_map(|(start_volume, run_length, start_sequence, mut entries, never_at, consumer, with_stats, last_modified_header, (mut vcp, cuts))| {
+        .prop_map(|(start_volume, run_length, start_sequence, mut entries, never_at, consumer, (with_stats, delivery), last_modified_header, (mut vcp, cuts))| {
             vcp.cuts = cuts;
             if let (Some(sel), false) = (never_at, entries.is_empty()) {
                 let i = (sel as usize * entries.len()) >> 16;
                 entries[i].delay = NEVER;
             }
-            Script { start_volume, run_length, start_sequence, entries, consumer, with_stats, last_modified_header, vcp }
+            Script { start_volume, run_length, start_sequence, entries, consumer, with_stats, last_modified_header, vcp, delivery }
         })
 }
 
